@@ -70,7 +70,7 @@ def _content(size, cseed):
 SIZES = [0, 1, 2, 3, 100, 4095, 32767, 32768, 32769, 65535, 65536, 65537, 98304, 100000, 200000, 307200]
 
 
-def gen_case(rng, idx=0):
+def gen_case(rng, idx=0, quick=True):
     r = rng.random()
     if r < 0.45:
         size = rng.choice(SIZES)
@@ -169,7 +169,39 @@ def gen_case(rng, idx=0):
             steps.append(["seek", off()])
             steps.append(["read", rng.choice([None, rng.randint(0, 70000)])])
     bufsize = rng.choice([-1, -1, -1, 0, 1, 64, 8192, 65536])
-    return dict(size=size, cseed=rng.randrange(1 << 30), short=short, short_at=short_at, steps=steps,
+    bounded = None
+    stratum = rng.random()
+    if stratum < 0.22:
+        # small flow-control windows: requests direction ~3 requests in flight, answers < 2 full replies
+        bounded = rng.choice([[128, 49152], [64, 32768], [128, 40000], [512, 65536], [40, 49152]])
+        size = rng.choice([100000, 131072, 200000, 307200])
+        short, short_at = rng.choice([None, None, ("fixed", rng.randint(8000, 32768))]), {}
+        steps = []
+        if rng.random() < 0.6:
+            steps.append(["prefetch", rng.choice([None, 0]), cap()])
+            steps.append(["pause", rng.choice([0.05, 0.15, 0.3])])
+            for _ in range(rng.randint(1, 4)):
+                steps.append(rng.choice([["read", rng.choice([1, 4096, 32768, 50000, 100000])], ["seek", rng.randint(0, size)]]))
+            steps.append(["read", None])
+        else:
+            o = rng.randint(0, size // 2)
+            steps.append(["readv", [[o + i * 33000, 32768] for i in range(rng.randint(3, 7))] + [[size - 10, 50]], cap()])
+            steps.append(["pause", 0.05])
+            steps.append(["seek", 0])
+            steps.append(["read", None])
+    elif stratum < 0.27:
+        # a second readv() while the prefetch thread of the first is still registering thousands of requests
+        size = rng.choice([20000, 65536, 150000])
+        short, short_at = None, {}
+        n1 = rng.choice([1000, 2000] if quick else [1500, 3000])
+        c1 = [[rng.randint(0, size - 1), rng.randint(1, 48)] for _ in range(n1)]
+        # many ranges in the second call: each one walks the request table the first call's thread is still filling
+        c2 = [[rng.randint(0, size + 20), rng.randint(1, 300)] for _ in range(rng.randint(150, 400))] + [[size + 5, 10], [max(0, size - 7), 30]]
+        rng.shuffle(c2)
+        steps = [["readv_pair", c1, rng.choice([None, None, 8]), c2, cap(), 2 if quick else rng.choice([5, 10])]]
+        if rng.random() < 0.5:
+            steps.append(["read", None])
+    return dict(bounded=bounded, size=size, cseed=rng.randrange(1 << 30), short=short, short_at=short_at, steps=steps,
                 bufsize=bufsize, jitter=rng.choice([0, 0, 1, 2]), gated=rng.random() < 0.2, jseed=rng.randrange(1 << 30),
                 early=rng.random() < 0.4)
 
@@ -202,13 +234,14 @@ def _in_pipe_recv(frame):
     return False
 
 
-def watch(wire, w, before, exclude, is_done, cap, progress=lambda: None):
+def watch(wire, w, before, exclude, is_done, cap, progress=lambda: None, quiet_s=10.0):
     """Watch worker thread `w` until `is_done()`.  Returns None when it finished,
     dict(status="hang", ...) on the blocked-at-quiescence evidence described in
     the module docstring, dict(status="watchdog", ...) when `cap` seconds passed
     without it (inconclusive)."""
     t0 = time.monotonic()
     stable = []
+    qstable = []
     nap = 0.002
     while not is_done():
         w.join(nap)  # returns at once when the worker ends
@@ -238,6 +271,34 @@ def watch(wire, w, before, exclude, is_done, cap, progress=lambda: None):
             if nm != ("_prefetch_thread", "sftp_file.py"):
                 cond = False
         snap_ = (reqs, resps, tuple(_paramiko_chain(wf)), tuple(osig), progress())
+        if getattr(wire, "bounded", False):
+            # DESIGN 2.4 rule 2 (blocked at quiescence): no byte moved in either direction and no thread of the
+            # case (caller, prefetch threads, server) changed its position for >= quiet_s seconds
+            def pos(fr_):
+                nm = _innermost(fr_)
+                return nm if nm == ("_prefetch_thread", "sftp_file.py") else nm + (fr_.f_lineno,)
+
+            tstate = [pos(wf)]
+            for t in others + [x for x in exclude if x is not None and x.is_alive()]:
+                tf = fr.get(t.ident)
+                if tf is not None:
+                    tstate.append((t.name.split(" ")[0],) + pos(tf))
+            with wire.s2c.cv:
+                b1 = (len(wire.s2c.raw), len(wire.s2c.buf))
+            with wire.c2s.cv:
+                b2 = (len(wire.c2s.raw), len(wire.c2s.buf))
+            q = (b1, b2, tuple(tstate), progress())
+            if qstable and qstable[1] == q:
+                if now - qstable[0] >= quiet_s:
+                    import traceback
+
+                    return dict(status="hang", kind="blocked_at_quiescence", chain=list(snap_[2]), requests=reqs, responses=resps,
+                                throttled_threads=len(osig), progress=snap_[4], quiet_s=round(now - qstable[0], 1),
+                                pipes=dict(s2c_unread=b1[1], c2s_unread=b2[1]), threads=[list(map(str, x)) for x in tstate],
+                                stacks={t.name: "".join(traceback.format_stack(fr[t.ident]))[-700:]
+                                        for t in [w] + others if t.ident in fr})
+            else:
+                qstable[:] = [now, q]
         if cond:
             if stable and stable[-1][1] != snap_:
                 stable = []
@@ -289,6 +350,40 @@ class CaseRun:
                         fsz = None if st[1] is None else len(data) + st[1]
                         f.prefetch(fsz, st[2]) if st[2] is not None else f.prefetch(fsz)
                         rec.update(ok=True)
+                    elif k == "pause":
+                        time.sleep(st[1])
+                        rec.update(ok=True)
+                    elif k == "readv_pair":
+                        c1 = [tuple(c) for c in st[1]]
+                        c2 = [tuple(c) for c in st[3]]
+                        rec.update(ok=True, sub=[])
+                        swi = sys.getswitchinterval()
+                        sys.setswitchinterval(0.0002)  # schedule perturbation: switch threads 25x more often
+                        for rnd in range(st[5]):
+                            self.cur = (i, rnd)
+                            it1 = f.readv(c1, st[2]) if st[2] is not None else f.readv(c1)
+                            got1 = [next(it1)]
+                            # is the first call's prefetch thread still registering its requests?
+                            alive = any("_prefetch_thread" in t.name and t.is_alive() for t in threading.enumerate())
+                            if alive and len(self.prefetch_ids) < self.expected_prefetch + len(c1):
+                                self.concurrent_overlaps += 1
+                            self.expected_prefetch = len(self.prefetch_ids)
+                            got2 = list(f.readv(c2, st[4]) if st[4] is not None else f.readv(c2))
+                            got1 += list(it1)
+                            for (o, l), got in list(zip(c1, got1)) + list(zip(c2, got2)):
+                                want = data[o:o + l]
+                                if got != want and len(rec["sub"]) < 4:
+                                    rec["ok"] = False
+                                    rec["sub"].append(dict(chunk=[o, l], ok=False, got=got, want=want, round=rnd))
+                            if len(got1) != len(c1) or len(got2) != len(c2):
+                                rec["ok"] = False
+                                rec["extra_item"] = True
+                            rec["chunks_compared"] = rec.get("chunks_compared", 0) + len(c1) + len(c2)
+                            if not rec["ok"]:
+                                break
+                        sys.setswitchinterval(swi)
+                        pos = f.tell()
+                        self.expected_prefetch = len(self.prefetch_ids)
                     elif k == "readv":
                         chunks = [tuple(c) for c in st[1]]
                         it = f.readv(chunks, st[2]) if st[2] is not None else f.readv(chunks)
@@ -330,7 +425,13 @@ class CaseRun:
                                    short_at={int(k): v for k, v in case["short_at"].items()}, delay=delay)
         self.script = script
         before = set(threading.enumerate())
-        self.bench = b = sftpbench.Bench(self.root, si_cls=sftpfaults.FaultyServer, si_kwargs=dict(script=script))
+        self.concurrent_overlaps = 0
+        self.expected_prefetch = 0
+        if case.get("bounded"):
+            self.bench = b = sftpfaults.BoundedBench(self.root, case["bounded"][0], case["bounded"][1],
+                                                     si_cls=sftpfaults.FaultyServer, si_kwargs=dict(script=script))
+        else:
+            self.bench = b = sftpbench.Bench(self.root, si_cls=sftpfaults.FaultyServer, si_kwargs=dict(script=script))
         wire = b.wire
         out = dict(status="ok")
         pump = None
@@ -394,7 +495,7 @@ class CaseRun:
             f._start_prefetch = astart
             f._check_exception = achk
             stop_pump = threading.Event()
-            if case["gated"]:
+            if case["gated"] and not case.get("bounded"):
                 wire.hold_replies()
                 jr3 = random.Random(case["jseed"] + 2)
 
@@ -410,10 +511,11 @@ class CaseRun:
             w = threading.Thread(target=self._worker, daemon=True, name="vf-c28-worker")
             w.start()
             hang = watch(wire, w, before, (b.server_thread, pump), lambda: self.done, self.cap, lambda: self.cur)
+
             if hang is not None:
                 out = hang
                 if out["status"] == "hang":
-                    out["at_step"] = out.pop("progress")
+                    out["at_step"] = out.pop("progress", None)
                     out["state"] = dict(extents=len(f._prefetch_extents), done=f._prefetch_done,
                                         prefetching=f._prefetching,
                                         saved=type(f._saved_exception).__name__ if f._saved_exception else None,
@@ -442,6 +544,8 @@ class CaseRun:
             out.update(read_requests=len(reads), prefetch_requests=len(self.prefetch_ids),
                        prefetch_starts=list(self.started), status_replies_to_reads=status_to_read,
                        saved_exceptions_raised=list(self.saved_raised), early_answers=self.early_answers,
+                       concurrent_overlaps=self.concurrent_overlaps, bounded=case.get("bounded"),
+                       sender_blocked=[getattr(wire.client_end, "blocked", 0), getattr(wire.server_end, "blocked", 0)],
                        short_replies_inside_file=short_inside, results=self.results)
         finally:
             try:
@@ -462,7 +566,7 @@ def summarize(out):
             d["exc"] = "%s: %s" % (type(r["exc"]).__name__, str(r["exc"])[:80])
         if r["op"] == "read" and not r["ok"] and "got" in r:
             d.update(at=r["at"], got_len=len(r["got"]), want_len=len(r["want"]), got_head=r["got"][:16], want_head=r["want"][:16])
-        if r["op"] == "readv":
+        if r["op"] in ("readv", "readv_pair"):
             d["sub"] = [dict(chunk=s["chunk"], ok=s["ok"], got_len=None if s["ok"] else len(s["got"]),
                              want_len=None if s["ok"] else len(s["want"])) for s in r.get("sub", [])][:14]
         res.append(d)
